@@ -495,4 +495,20 @@ def exec_plan(plan, count_mode=False):
         if fps:
             ev["fp"] = [digest(fingerprint(W.objs[oi])) for oi in fps]
         events.append(ev)
+    # values handed out earlier must not change afterwards: re-canonicalise every raw result at
+    # the end of the run and report the steps whose returned value is no longer what it was
+    if plan.get("recheck_results"):
+        changed = []
+        by = {e["id"]: e for e in events}
+        for sid, raw in W.results.items():
+            e = by.get(sid)
+            if e is None or e["out"][0] != "ok":
+                continue
+            try:
+                now = canon(raw)
+            except Exception:
+                now = {"err": 1}
+            if now != e["out"][1]:
+                changed.append(sid)
+        events.append({"id": -1, "out": ["final"], "changed": sorted(changed)})
     return events
